@@ -5,7 +5,7 @@ VERIF = os.path.dirname(os.path.dirname(os.path.abspath(__file__)))
 FIRST_PASS_MISSED = {"C01-change2", "C03-change2", "C04-change1", "C05-change1", "C05-change2", "C09-change1", "C09-change2", "C11-change2",
                      "C12-change1", "C13-change1", "C13-change2", "C14-change1", "C15-change1", "C15-change2", "C19-change2",
                      "C05-r2-change2", "C12-r2-change1", "C13-r2-change1", "C15-r2-change2", "C16-r2-change1", "C16-r2-change2",
-                     "C06-r4-change1", "C16-r4-change1", "C17-r4-change1", "C18-r4-change1", "C20-r4-change1",
+                     "C08-r5-change1", "C06-r4-change1", "C16-r4-change1", "C17-r4-change1", "C18-r4-change1", "C20-r4-change1",
                      "C02-r3-change2", "C05-r3-change1", "C05-r3-change2", "C12-r3-change1", "C14-r3-change1", "C15-r3-change1", "C15-r3-change2", "C19-r3-change2"}
 rows = []
 for d in sorted(glob.glob(os.path.join(VERIF, "seeded", "*"))):
